@@ -54,6 +54,12 @@ def r11_1(ctx, prog, crate):
         names = [b.call_at(x).callee for x in sorted(nb) if b.call_at(x) is not None]
         ctx.check(names == ["<time::fine_duration::FineDuration as std::default::Default>::default"] or names == ["std::default::Default::default"], "R11.1",
                   ["duration_since", "earlier-after-later-is-zero"], "when b < a the function calls %s (expected Default::default, i.e. zero)" % names, b.where(none_t))
+    # what is returned, as a value: floor(widen(diff) * 10^12 / widen(frequency.get())) in 128 bits - however it is spelled
+    if _duration_since_value_ok(ctx, prog, b):
+        ctx.note("type-range argument: diff <= 2^64-1 and 10^12 < 2^40, so the u128 product is < 2^104 and cannot overflow; the divisor is a NonZeroU64")
+        _frequency_rule(ctx, prog, crate)
+        return
+    # not recognised as a value: the statement-level checks say what is different
     muls = [(bi, si, s) for bi, si, s in b.stmts() if s["k"] == "assign" and s["rv"]["k"] == "binop" and s["rv"]["op"] in ("Mul", "MulWithOverflow")]
     divs = [(bi, si, s) for bi, si, s in b.stmts() if s["k"] == "assign" and s["rv"]["k"] == "binop" and s["rv"]["op"] == "Div"]
     if not ctx.check(len(muls) == 1 and len(divs) == 1, "R11.1", ["duration_since", "one-mul-one-div"], "multiplications: %d, divisions: %d" % (len(muls), len(divs)), b.where(0)):
@@ -115,7 +121,10 @@ def r11_1(ctx, prog, crate):
         ok = o["k"] in ("copy", "move") and (o["p"]["l"] == d["p"]["l"] or (dq is not None and dq[0] == "rvalue" and dq[1] is d["rv"]))
     ctx.check(ok, "R11.1", ["duration_since", "returns-quotient"], "the returned picoseconds are not the quotient", b.where(dbi))
     ctx.note("type-range argument: diff <= 2^64-1 and 10^12 < 2^40, so the u128 product is < 2^104 and cannot overflow; the divisor is a NonZeroU64")
-    # TscTimestamp::start / end read the right counter (also C02/R02.4)
+    _frequency_rule(ctx, prog, crate)
+
+
+def _frequency_rule(ctx, prog, crate):
     tf = prog.body("time::timestamp::tsc::TscTimestamp::frequency", crate)
     if tf is not None:
         names = {cc.callee.rsplit("::", 1)[-1] for cc in tf.live_calls()}
@@ -123,22 +132,119 @@ def r11_1(ctx, prog, crate):
                   "TscTimestamp::frequency does not go through NonZeroU64::new (a zero frequency would divide by zero)", tf.where(0))
 
 
+def _duration_since_value_ok(ctx, prog, b):
+    """True (and the R11.1 obligations recorded) when every returning path of duration_since yields, as a canonical value,
+    widen128(self.value - earlier.value) * 10^12 / widen128(frequency.get()) on the paths where the difference exists and
+    zero otherwise."""
+    from lib.patheval import PathEval
+    sums = PathEval(b, keep_casts=True).run()
+    if not sums:
+        return False
+    SUBS = ("core::num::checked_sub", "core::num::saturating_sub")
+
+    def widen(e):
+        """x for widen128(x), else None."""
+        if e[0] == "cast" and e[1] == "u128":
+            return e[2]
+        if e[0] in ("call", "site") and isinstance(e[1], str) and e[1].endswith("::from") and "u128" in e[1]:
+            args = e[2] if e[0] == "call" else e[3]
+            return args[0] if len(args) == 1 else None
+        if e[0] == "site" and e[1] == "std::convert::num::from" and len(e[3]) == 1:
+            c_ = b.call_at(e[2])        # the lossless integer conversions of core::convert::num: widening when the result is u128
+            if c_ is not None and c_.dest.get("ty") == "u128":
+                return e[3][0]
+        return None
+
+    def is_diff(e):
+        if e[0] == "payload" and e[1] == "Some":
+            e = e[3]
+        return e[0] == "call" and e[1] in SUBS and e[2] == (("arg", 1, ("value",)), ("arg", 2, ("value",)))
+    good = zero = 0
+    for sm in sums:
+        r = sm.ret
+        if r[0] == "adt" and r[1].endswith("FineDuration"):
+            v = dict(zip(r[4], r[3])).get("picos")
+            if v == ("int", 0):
+                zero += 1
+                continue
+            if not (v and v[0] == "div"):
+                return False
+            num, den = v[1], v[2]
+            fd = widen(den)
+            if not (fd is not None and fd[0] == "call" and fd[1] == "std::num::NonZero::get" and fd[2] == (("arg", 3, ()),)):
+                return False
+            if num[0] == "lin" and len(num[1]) == 1 and num[2] == 0 and num[1][0][1] == 10 ** 12:
+                d = widen(num[1][0][0])
+            elif num[0] == "mul" and ("int", 10 ** 12) in num[1:]:
+                d = widen([x for x in num[1:] if x != ("int", 10 ** 12)][0])
+            else:
+                return False
+            if d is None or not is_diff(d):
+                return False
+            good += 1
+        elif r[0] == "site" and r[1].endswith("Default>::default") or r == ("opaque", "const:time::fine_duration::FineDuration::ZERO") or \
+                (r[0] == "opaque" and "FineDuration::ZERO" in str(r[1])):
+            # zero when the difference does not exist: only on the path that says so
+            if not any(a[0] == "discr" and a[1][0] == "call" and a[1][1] == "core::num::checked_sub" and p for a, p in sm.conds):
+                return False
+            zero += 1
+        else:
+            return False
+    if not good or "NonZero<u64>" not in b.local_ty(3):
+        return False
+    for key in ("one-mul-one-div", "multiply-in-128-bits", "difference-widened-before-multiply", "difference-at-most-64-bits", "picos-per-second",
+                "divide-the-product", "no-quotient-multiplied", "divide-by-nonzero-frequency", "frequency-is-NonZeroU64", "returns-quotient"):
+        ctx.ok("R11.1", "duration_since|" + key)
+    return True
+
+
 def r11_2(ctx, prog, crate):
     b = prog.body("<time::fine_duration::FineDuration as std::convert::From<std::time::Duration>>::from", crate)
     if ctx.anchor("R11.2", "From<Duration> for FineDuration", 1 if b else 0, 1):
         ctx.saw(b)
-        cm = [c for c in b.live_calls() if c.callee == "core::num::checked_mul"]
+        # the stored value, on every path, is as_nanos(duration) x 1000 formed in 128 bits: checked (the original), or
+        # saturating / wrapping / plain - all the same function here, because as_nanos() < 2^95 and the product < 2^105
+        from lib.patheval import PathEval
+        sums = PathEval(b, keep_casts=True).run()
+        if ctx.check(bool(sums), "R11.2", ["From<Duration>", "readable"], "cannot summarise the conversion", b.where(0)):
+            def product(e, depth=0):
+                """(nanos expression, factor) of the first product found in e."""
+                if not isinstance(e, tuple) or depth > 10:
+                    return None
+                if e and e[0] == "call" and isinstance(e[1], str) and e[1] in ("core::num::checked_mul", "core::num::saturating_mul", "core::num::wrapping_mul") and len(e[2]) == 2:
+                    return e[2][0], e[2][1]
+                if e and e[0] == "lin" and len(e[1]) == 1 and e[2] == 0:
+                    return e[1][0][0], ("int", e[1][0][1])
+                if e and e[0] == "mul" and len(e) == 3:
+                    return e[1], e[2]
+                for x in (e if (e and isinstance(e[0], tuple)) else e[1:]):
+                    if isinstance(x, tuple):
+                        r = product(x, depth + 1)
+                        if r is not None:
+                            return r
+                return None
+            for sm in sums:
+                if sm.ret[0] != "adt":
+                    continue        # a diverging / early path is judged by the paths that return a value
+                val = dict(zip(sm.ret[4], sm.ret[3])).get("picos")
+                pr = product(val) if val is not None else None
+                ok = pr is not None
+                if ok:
+                    a_, k_ = pr
+                    if a_[0] == "int":
+                        a_, k_ = k_, a_
+                    ok = k_ == ("int", 1000) and a_[0] == "site" and a_[1] == "std::time::Duration::as_nanos" and a_[3] == (("arg", 1, ()),)
+                ctx.check(ok, "R11.2", ["From<Duration>", "nanos-times-1000-checked"],
+                          "the conversion stores %s, expected duration.as_nanos() x 1000 formed in 128 bits" % (val,), b.where(sm.blocks[-1]), detail={"value": str(val)[:200]})
         an = [c for c in b.live_calls() if c.callee == "std::time::Duration::as_nanos"]
-        ok = len(cm) == 1 and len(an) == 1
-        if ok:
-            d0 = direct_place(b, cm[0].args[0])
-            ok = d0 is not None and d0[0] == "call" and d0[1].bb == an[0].bb and const_int(cm[0].args[1]) == 1000
-        ctx.check(ok, "R11.2", ["From<Duration>", "nanos-times-1000-checked"], "the conversion is not as_nanos().checked_mul(1000)", b.where(0),
-                  detail={"factor": const_int(cm[0].args[1]) if cm else None})
         if an:
             ctx.check({z.label() for z in b.prov.op_src(an[0].args[0])} == {"param:" + b.param_name(1)}, "R11.2", ["From<Duration>", "of-the-argument"], "as_nanos of something else", an[0].line())
-        muls = [s for bi, si, s in b.stmts() if s["k"] == "assign" and s["rv"]["k"] == "binop" and s["rv"]["op"] in ("Mul", "MulWithOverflow", "Div")]
-        ctx.check(not muls, "R11.2", ["From<Duration>", "no-unchecked-arithmetic"], "unchecked arithmetic in the conversion", b.where(0))
+        # no narrower arithmetic anywhere in the conversion (a 64-bit fast path overflows for durations near 2^64 ps)
+        narrow = [s_ for bi, si, s_ in b.stmts() if s_["k"] == "assign" and s_["rv"]["k"] == "binop" and s_["rv"]["op"] in ("Mul", "MulWithOverflow", "Add", "AddWithOverflow", "Div") and
+                  (s_["rv"]["a"].get("p", s_["rv"]["a"].get("c", {})).get("ty") not in ("u128",))]
+        narrow += [c for c in b.live_calls() if c.callee.startswith("core::num::") and c.callee.rsplit("::", 1)[-1] in ("checked_mul", "saturating_mul", "wrapping_mul", "checked_add", "saturating_add", "wrapping_add") and
+                   c.args and c.args[0].get("p", c.args[0].get("c", {})).get("ty") not in ("u128",)]
+        ctx.check(not narrow, "R11.2", ["From<Duration>", "no-unchecked-arithmetic"], "the conversion does arithmetic in fewer than 128 bits", b.where(0))
     b = prog.body("time::timestamp::Timestamp::duration_since", crate)
     names = tables.variant_names(prog, "time::timestamp::Timestamp", crate)
     if ctx.anchor("R11.2", "Timestamp::duration_since", (1 if b else 0) + (1 if names else 0), 2):
